@@ -110,10 +110,12 @@ func (m *Manager) wipeoutKey(ctx context.Context, keyName string) error {
 				&kmspb.DestroyCryptoKeyVersionRequest{Name: kver.GetName()})
 			result = multierr.Append(result, err)
 		}
-		if len(resp.GetCryptoKeyVersions()) < keyPageSize {
+		// A page may be shorter than asked for while more results remain, and a full page may be
+		// the last one: only an empty next_page_token ends the listing.
+		pageToken = resp.GetNextPageToken()
+		if pageToken == "" {
 			break
 		}
-		pageToken = resp.GetNextPageToken()
 	}
 	return result
 }
@@ -132,10 +134,10 @@ func (m *Manager) Wipeout(ctx context.Context) error {
 		for _, key := range resp.GetCryptoKeys() {
 			result = multierr.Append(result, m.wipeoutKey(ctx, key.GetName()))
 		}
-		if len(resp.GetCryptoKeys()) < keyPageSize {
+		pageToken = resp.GetNextPageToken()
+		if pageToken == "" {
 			break
 		}
-		pageToken = resp.GetNextPageToken()
 	}
 	return result
 }
